@@ -266,12 +266,12 @@ func cmdRun(args []string) int {
 		fatal("no harness for property " + *prop)
 	}
 	known := loadKnownFindings()
-	cfg := Config{maxSteps: 3000000, maxLoop: 300, maxDepth: 200, maxIteChain: 96, maxConcretize: 40, timeoutMs: 20000, solverKind: *solver, maxAllocCells: 1 << 16}
+	cfg := Config{maxSteps: 3000000, maxLoop: 300, maxDepth: 200, maxIteChain: 96, maxConcretize: 600, timeoutMs: 20000, solverKind: *solver, maxAllocCells: 1 << 16}
 	if *tier == "thorough" {
 		cfg.timeoutMs = 120000
 		cfg.maxLoop = 1200
 		cfg.maxSteps = 20000000
-		cfg.maxConcretize = 80
+		cfg.maxConcretize = 5000
 	}
 	os.Setenv("VERIF_TIER", *tier)
 	scratch, err := os.MkdirTemp("", "gosmt")
